@@ -10,11 +10,15 @@ import (
 type RegexGen struct {
 	R        *Rng
 	Alpha    string
-	Named    bool // use named groups (never mixed with numbered ones in one regex)
+	Named    bool // use named groups only
+	Mixed    bool // named and numbered groups in one regex: only NAMED back-references are generated then
+	                // (vore numbers the unnamed groups only, a conventional engine numbers all of them)
 	BackRefs bool
 	Anchors  bool
 	nGroup   int
+	nNamed   int
 	closed   []string // capture names whose group has closed (usable by back-references)
+	groupNullable map[string]bool
 	budget   int
 	HasBackRef bool
 	NGroups  int
@@ -97,11 +101,15 @@ func (g *RegexGen) atom(depth int) rxPiece {
 		case 10:
 			if g.BackRefs && len(g.closed) > 0 {
 				name := g.closed[r.Intn(len(g.closed))]
-				g.HasBackRef = true
-				if strings.HasPrefix(name, "_") {
-					return rxPiece{"\\" + name[1:], BackRef{Name: name}, true}
+				if g.Mixed && strings.HasPrefix(name, "_") {
+					continue
 				}
-				return rxPiece{"\\k<" + name + ">", BackRef{Name: name}, true}
+				g.HasBackRef = true
+				null := g.groupNullable[name]
+				if strings.HasPrefix(name, "_") {
+					return rxPiece{"\\" + name[1:], BackRef{Name: name}, null}
+				}
+				return rxPiece{"\\k<" + name + ">", BackRef{Name: name}, null}
 			}
 		}
 	}
@@ -117,11 +125,12 @@ func (g *RegexGen) group(depth int) rxPiece {
 	if kind == 1 {
 		open = "(?:"
 	} else {
-		g.nGroup++
-		if g.Named {
-			name = fmt.Sprintf("n%d", g.nGroup)
+		if g.Named || (g.Mixed && r.Bool()) {
+			g.nNamed++
+			name = fmt.Sprintf("n%d", g.nNamed)
 			open = "(?<" + name + ">"
 		} else {
+			g.nGroup++
 			name = fmt.Sprintf("_%d", g.nGroup)
 		}
 		g.Names = append(g.Names, name)
@@ -130,6 +139,10 @@ func (g *RegexGen) group(depth int) rxPiece {
 	inner := g.content(depth)
 	if name != "" {
 		g.closed = append(g.closed, name)
+		if g.groupNullable == nil {
+			g.groupNullable = map[string]bool{}
+		}
+		g.groupNullable[name] = inner.nullable
 		return rxPiece{open + inner.src + ")", Seq{Items: []Node{Capture{Name: name, Body: Seq{Items: []Node{inner.node}}}}}, inner.nullable}
 	}
 	return rxPiece{open + inner.src + ")", Seq{Items: []Node{inner.node}}, inner.nullable}
@@ -139,8 +152,8 @@ func (g *RegexGen) group(depth int) rxPiece {
 func (g *RegexGen) quantified(depth int) rxPiece {
 	r := g.R
 	a := g.atom(depth)
-	if _, isRef := a.node.(BackRef); isRef {
-		// a digit-free follower is guaranteed by the alphabet; keep back-references unquantified
+	if _, isRef := a.node.(BackRef); isRef && (a.nullable || !r.Chance(1, 3)) {
+		// a back-reference to a group that can be empty is a nullable body: never quantified
 		return a
 	}
 	if a.nullable || !r.Chance(2, 5) {
